@@ -3,6 +3,8 @@
 package otr3
 
 import (
+	"fmt"
+	"crypto/sha256"
 	"encoding/binary"
 	"math/big"
 )
@@ -23,6 +25,8 @@ type verifDataInfo struct {
 	TLVs           []tlv
 	Revealed       [][]byte
 	MACOK          bool
+	Stream         string // identity of the AES-CTR key stream the message was enciphered with (key, counter)
+	Cipher         []byte
 }
 
 func verifParseData(msg []byte) (hdr []byte, dm dataMsg, version uint16, ok bool) {
@@ -96,5 +100,8 @@ func verifOpenOwn(c *Conversation, msg []byte) (info verifDataInfo) {
 	info.OK = true
 	info.Plain = append([]byte{}, p.message...)
 	info.TLVs = p.tlvs
+	ks := sha256.Sum256(append(append([]byte{}, sk.sendingAESKey...), dm.topHalfCtr[:]...))
+	info.Stream = fmt.Sprintf("%x", ks[:12])
+	info.Cipher = append([]byte{}, dm.encryptedMsg...)
 	return
 }
